@@ -77,6 +77,10 @@ def run(res, tier):
         res.configs.append(p.build_info)
         nc = col1(p, res)
         res.floor("COL-1", "core noise-free operations", nc, 12)
+        from .c11 import nrm1
+        res.rule("NRM-1", "shift / normalisation shape functions: the final normalisation step is the last link of a carry chain - no middle or final step receives the same carry afterwards on a feasible path")
+        nn = nrm1(p, res)
+        res.floor("NRM-1", "shape functions with a final normalisation step", nn, 6)
         from .c11 import col2
         res.rule("COL-2", "core noise-free operations read an operand at the loop's column index only below the operand's own rank + 1 (bound equal, min-dominated, branch-resolved max, or ranks asserted equal)")
         nc2 = col2(p, res)
